@@ -30,10 +30,11 @@ def execute_guarded(mod, case, wall=None, **kw):
     from . import seams
 
     if wall is None:
-        wall = getattr(mod, "WALL", 30.0)
+        wall = getattr(mod, "WALL", 60.0)
     for attempt in (1, 2):
         try:
-            with seams.wall_guard(wall):
+            # the wall clock is only a backstop (the round budget is the liveness oracle); the retry gets three times as long
+            with seams.wall_guard(wall if attempt == 1 else 3 * wall):
                 return mod.execute(case, **kw)
         except seams.WallAlarm:
             seams.uninstall()
